@@ -182,9 +182,12 @@ class Stats:
         self.excluded = {}
         self.exhaustive = []
         self.violation = None  # (case, message)
+        self.first = None
 
     def record(self, case, res):
         self.evaluations += 1
+        if self.first is None:
+            self.first = shorten(case)
         for c in res.classes:
             self.classes[c] = self.classes.get(c, 0) + 1
         for k in res.known:
@@ -201,7 +204,7 @@ class Stats:
             "evaluations": self.evaluations,
             "nontrivial": sorted(self.nontrivial),
             "classes": self.classes,
-            "samples": self.samples,
+            "samples": self.samples or ([self.first] if self.first is not None else []),
             "known_hits": self.known_hits,
             "excluded": self.excluded,
             "exhaustive": self.exhaustive,
@@ -490,8 +493,11 @@ def main(argv):
     }
     if exhaustive_all and budget.get("examples", 0) == 0:
         evidence["coverage"]["exhaustive"] = True
-    os.makedirs(os.path.join(ROOT, "evidence"), exist_ok=True)
-    with open(os.path.join(ROOT, "evidence", pid + ".json"), "w") as f:
+    evdir = os.path.join(ROOT, "evidence")
+    if os.path.realpath(REPO) != "/repo":
+        evdir = os.path.join(ROOT, "found", "evidence_other_tree")  # never overwrite /repo's evidence
+    os.makedirs(evdir, exist_ok=True)
+    with open(os.path.join(evdir, pid + ".json"), "w") as f:
         json.dump(evidence, f, indent=1, sort_keys=True)
         f.write("\n")
 
